@@ -1010,6 +1010,8 @@ class PortSegment(CIPSegment):
             port = cls.port_segments[segment.port]
         else:
             port = segment.port
+        if not 0 < port < 15:
+            raise DataError(f"Invalid port number: {port!r}")
         if isinstance(segment.link_address, str):
             if segment.link_address.isnumeric():
                 link = USINT.encode(int(segment.link_address))
